@@ -23,6 +23,8 @@ Three legs:
  2d. the same programs with one loop made recursive and its body re-entered once through loop(...) in a random
     spelling (emit, value position, alias, assignment) from a random place (body, nested loop, macro declared in
     the body, call block, with) - engine only.
+ 2e. the same programs with a macro that is declared in the first iteration of a loop only, kept in a namespace
+    attribute and called in every iteration and after the loop (engine only).
  3. proof audit of Props/C18.v (undeclared_sound for every outcome, nested mode, ...).
 Renders run with debug info off; the lookups of the error-reporting path with debug info on are the
 known finding `debug-info-lookups`, which is re-observed and kept apart from everything else.
@@ -63,6 +65,8 @@ if not getattr(langenc, "_c18_extended", False):
     def src_expr(e):
         if e[0] == "selfcall":
             return "self." + e[1] + "()"
+        if e[0] == "nscall":
+            return e[1] + "." + e[2] + "()"
         if e[0] == "slice":
             base = proggen.expr_src(e[1])
             if e[1][0] == "filter":          # `x|items[..]` does not parse: a subscript follows a primary only
@@ -256,6 +260,28 @@ for ol, ot in LOOP_OUTER:
             core = ("{% macro w() %}{{ caller() }}{% endmacro %}{% for y in [1] recursive %}[{{ E }}]{% set lp = loop %}{% set ns = namespace(f=loop) %}"
                     "{% if loop.depth0 == 0 %}" + pt.replace("#", st_) + "{% endif %}{% endfor %}")
             LOOP_HOLES.append(("recursive-loop:%s/%s/%s" % (ol, pl, sl), ot.replace("@", core)))
+# escaping macros: a macro that reads the outer binding V is declared under a condition (in one iteration of a
+# loop, in a with / block / another macro), kept alive in a namespace attribute (or a list in it, or as the caller
+# of a call block) and called later: in a later iteration, after the loop, in a nested loop, from another macro
+_DECL = "{% macro m() %}<{{ E }}>{% endmacro %}{% set ns.m = m %}"
+ESC_CORE = [
+    ("loop-first/call-every-iteration", "{% for i in [1, 2, 3] %}{% if loop.first %}" + _DECL + "{% endif %}{{ ns.m() }}{% endfor %}"),
+    ("loop-first/call-after-loop", "{% for i in [1, 2] %}{% if loop.first %}" + _DECL + "{% endif %}{% endfor %}{{ ns.m() }}"),
+    ("loop-first/call-last-iteration", "{% for i in [1, 2, 3] %}{% if loop.first %}" + _DECL + "{% endif %}{% if loop.last %}{{ ns.m() }}{% endif %}{% endfor %}"),
+    ("loop-second/call-third", "{% for i in [1, 2, 3] %}{% if i == 2 %}" + _DECL + "{% endif %}{% if i == 3 %}{{ ns.m() }}{% endif %}{% endfor %}"),
+    ("loop-first/call-in-nested-loop", "{% for i in [1, 2] %}{% if loop.first %}" + _DECL + "{% endif %}{% for j in [1] %}{{ ns.m() }}{% endfor %}{% endfor %}"),
+    ("loop-first/call-from-other-macro", "{% macro c() %}{{ ns.m() }}{% endmacro %}{% for i in [1, 2] %}{% if loop.first %}" + _DECL + "{% else %}{{ c() }}{% endif %}{% endfor %}"),
+    ("with-in-loop/call-every-iteration", "{% for i in [1, 2] %}{% with q = 1 %}{% if i == 1 %}" + _DECL + "{% endif %}{% endwith %}{{ ns.m() }}{% endfor %}"),
+    ("nested-macro/call-every-iteration", "{% macro mk() %}" + _DECL + "{% endmacro %}{% for i in [1, 2] %}{% if loop.first %}{{ mk() }}{% endif %}{{ ns.m() }}{% endfor %}"),
+    ("block-in-loop/call-every-iteration", "{% for i in [1, 2] %}{% if loop.first %}{% block b %}" + _DECL + "{% endblock %}{% endif %}{{ ns.m() }}{% endfor %}"),
+    ("loop-first/list-in-namespace", "{% for i in [1, 2] %}{% if loop.first %}{% macro m() %}<{{ E }}>{% endmacro %}{% set ns.m = [m] %}{% endif %}{{ ns.m[0]() }}{% endfor %}"),
+    ("loop-first/caller-kept", "{% macro keep() %}{% set ns.m = caller %}{% endmacro %}{% for i in [1, 2] %}{% if loop.first %}{% call keep() %}<{{ E }}>{% endcall %}{% endif %}{{ ns.m() }}{% endfor %}"),
+    ("loop-first/call-in-later-filtered-loop", "{% for i in [1, 2, 3] if i != 2 %}{% if loop.first %}" + _DECL + "{% else %}{{ ns.m() }}{% endif %}{% endfor %}"),
+    ("if-only/call-after", "{% if t %}" + _DECL + "{% endif %}{{ ns.m() }}"),
+    ("nested-loops/inner-first/call-in-outer-later", "{% for a in [1, 2] %}{% for i in [1, 2] %}{% if loop.first and a == 1 %}" + _DECL + "{% endif %}{% endfor %}{{ ns.m() }}{% endfor %}"),
+]
+ESC_HOLES = [("escaping-macro:%s/%s" % (ol, cl), "{% set ns = namespace(m=none) %}" + ot.replace("@", ct))
+             for ol, ot in LOOP_OUTER for cl, ct in ESC_CORE]
 LOOP_FORMS = {"var", "attr", "filter-arg", "call-arg"}
 LOOP_GUARD = "{% if loop.depth0 == 0 %}"
 
@@ -297,7 +323,7 @@ def construct_cases(thorough):
                 for cl, extra in ctxs(v):
                     c = dict(BASE_CTX); c.update(extra)
                     out.append((hl, fl, v, cl, inst(ht, fs, v), c))
-    for hl, ht in LOOP_HOLES:
+    for hl, ht in LOOP_HOLES + ESC_HOLES:
         for fl, fs in FORMS:
             if fl not in LOOP_FORMS or (not thorough and fl not in ("var", "filter-arg")):
                 continue
@@ -575,6 +601,47 @@ def recursion_mutation(body, rng):
     guard = guard_off
     off = [wr] + rebuild(list(body), path)
     return on, known, off
+
+
+def escaping_macro_mutation(body, rng):
+    """Engine-side only: in one loop of the program a macro that reads names bound around it is declared in the
+    first iteration only, kept in a namespace attribute and called in every iteration and after the loop."""
+    found = []
+
+    def walk(b, path):
+        for i, st in enumerate(b):
+            if st[0] == "for":
+                found.append(path + [i])
+                walk(st[4], path + [i, 4])
+            elif st[0] in ("with", "filterblock", "autoescape"):
+                walk(st[2], path + [i, 2])
+            elif st[0] == "if":
+                for k, (c, x) in enumerate(st[1]):
+                    walk(x, path + [i, 1, k, 1])
+    walk(body, [])
+    if not found:
+        return None
+    path = rng.choice(found)
+    bn = set(); bound_names(body, bn)
+    pool = sorted(x for x in bn if not x.startswith("m")) + ["n", "m", "s", "t"]
+    reads = [("emit", ("var", rng.choice(pool))) for _ in range(1 + rng.below(3))]
+    decl = ("if", [(("attr", ("var", "loop"), "first"), [("macro", "em", [], [], reads), ("setattr", "nsx", "em", ("var", "em"))])], None)
+    call = ("emit", ("nscall", "nsx", "em"))
+
+    def rebuild(b, path):
+        i = path[0]
+        st = b[i]
+        if len(path) == 1:
+            new = ("for", st[1], st[2], st[3], [decl] + list(st[4]) + [call], st[5], st[6])
+            return b[:i] + [new] + ([call] if rng.chance(1, 2) else []) + b[i + 1:]
+        k = path[1]
+        if st[0] == "if":
+            arms = list(st[1]); c, x = arms[path[2]]; arms[path[2]] = (c, rebuild(x, path[4:]))
+            new = ("if", arms, st[2])
+        else:
+            lst = list(st); lst[k] = rebuild(st[k], path[2:]); new = tuple(lst)
+        return b[:i] + [new] + b[i + 1:]
+    return [("set", "nsx", ("call", "namespace", [], []))] + rebuild(list(body), path)
 
 
 def has_loop_control(st):
@@ -925,7 +992,7 @@ def main():
             continue                                     # not specific to the special name
         classes[(hl, fl, vn)] = v
     chk.cov["construct_search"] = {"templates": len(cc), "compiled": loaded, "expressions": len(ereqs),
-                                   "holes": len(HOLES) + len(CALL_HOLES) + len(LOOP_HOLES), "recursive_loop_positions": len(LOOP_HOLES), "forms": len(FORMS), "failing_pairs": len(fails), "failing_classes": len(classes)}
+                                   "holes": len(HOLES) + len(CALL_HOLES) + len(LOOP_HOLES) + len(ESC_HOLES), "recursive_loop_positions": len(LOOP_HOLES), "escaping_macro_positions": len(ESC_HOLES), "forms": len(FORMS), "failing_pairs": len(fails), "failing_classes": len(classes)}
     # ---------------- known finding: lookups of the error-reporting path ----------------------------
     kf_t = "{% if f %}{% set q = 1 %}{% endif %}{{ 1 // 0 }}"
     kres = run_c18([req_t(kf_t, {"f": False}, debug=True), req_t(kf_t, {"f": False}, debug=False)])
@@ -1094,6 +1161,30 @@ def main():
         rdirect = [x for x in rdirect if x[0] not in okset]
     chk.cov["recursive_loop_leg"] = {"programs": len(rprogs), "violations": len(rdirect), "known_class_cases": loop_known_hits,
                                      "sample": rreqs[0]["tpl"][:400] if rreqs else None}
+    # ---------------- leg 2e: the same programs with a macro that escapes the iteration it is declared in (engine only)
+    eprogs = []
+    for body, ctx in progs[:(min(len(progs), 60000) if chk.thorough else min(len(progs), 2500))]:
+        eb = escaping_macro_mutation(body, chk.rng)
+        if eb is not None:
+            eprogs.append((eb, ctx))
+    ereqs2 = [req_t(proggen.body_src(b), ctx) for b, ctx in eprogs]
+    edirect = []
+    for rel in (False, True):
+        eres = run_c18(ereqs2, release=rel)
+        n_eval += len(eres)
+        for i, r in enumerate(eres):
+            mm = missing_of(r)
+            if mm is None:
+                if not rel:
+                    hist["escaping_macro_program_rejected"] += 1
+                continue
+            if not rel:
+                hist["escaping_macro_program_render_" + ("ok" if "ok" in r["render"] else "err")] += 1
+                if r["asked"]:
+                    nontriv.add(ereqs2[i]["tpl"] + json.dumps(eprogs[i][1], sort_keys=True))
+            if mm[0] or mm[1]:
+                edirect.append((i, rel, mm))
+    chk.cov["escaping_macro_leg"] = {"programs": len(eprogs), "violations": len(edirect), "sample": ereqs2[0]["tpl"][:400] if ereqs2 else None}
     kentry3 = chk.match_known(lambda k: k["id"] == "recursive-loop-reentered-from-macro-context")
     # ---------------- known finding: debug() dumps the whole context ------------------------------------------------
     dres = run_c18([req_t("{{ debug() }}", {"secret_key": 1, "other": 2})])[0]
@@ -1162,6 +1253,25 @@ def main():
         seenh.add(key)
         chk.violation("undeclared_variables of a stored template after reconfiguring the environment: " + what,
                       dict(det, history=rq["history"], context=rq["ctx"], syntaxes=rq["syntaxes"], profile="release" if rel else "debug"))
+    seene = set()
+    for i, rel, mm in edirect[:40]:
+        if len(seene) >= 4:
+            break
+        body, ctx = eprogs[i]
+        def stille(b):
+            r = run_c18([req_t(proggen.body_src(b), ctx)], release=rel)[0]
+            m2 = missing_of(r)
+            return bool(m2 and (m2[0] or m2[1]))
+        sb = proggen.shrink(body, stille, budget=150)
+        src = proggen.body_src(sb)
+        if src in seene:
+            continue
+        seene.add(src)
+        r = run_c18([req_t(src, ctx)], release=rel)[0]
+        m2 = missing_of(r)
+        chk.violation("undeclared_variables omits a variable the render reads (generated program with a macro that escapes its iteration)",
+                      {"template": src, "context": ctx, "asked": r["asked"], "reported": r["flat"], "reported_nested": r["nested"],
+                       "missing": m2[0], "missing_nested": m2[1], "profile": "release" if rel else "debug"})
     seenr = set()
     for i, rel, mm in rdirect[:40]:
         if len(seenr) >= 4:
